@@ -82,6 +82,18 @@ func check(c *enum.Ctx, k kase) {
 			}
 			return
 		}
+		if len(text) <= 400 && k.Junk == "" {
+			for limit := 0; limit < len(text); limit++ {
+				msg, _ := featgen.CountsUnderFailure(func(sk *featgen.Sink) func(int) (int, error) {
+					w, _ := bed.NewWriter(sk, k.Width)
+					return func(i int) (int, error) { return w.Write(k.Bed[i].Make(k.Typ)) }
+				}, len(k.Bed), limit)
+				if msg != "" {
+					fail("byte-count/failing-sink", "%s", msg)
+					break
+				}
+			}
+		}
 		c.Guard("bed/read-panic", k, func() {
 			if k.Junk != "" {
 				text = append([]byte(k.Junk+"\n"), text...)
@@ -143,6 +155,20 @@ func check(c *enum.Ctx, k kase) {
 			if !bytes.Contains(text, []byte(line)) {
 				fail("one-based-text", "region [%d,%d) should be written as %q; text %q", it.Start, it.End, line, text)
 				return
+			}
+		}
+	}
+	// byte counts when the sink fails: for every number of bytes the sink accepts before failing, each
+	// call reports what was emitted during that call
+	if len(text) <= 400 && k.Junk == "" {
+		for limit := 0; limit < len(text); limit++ {
+			msg, _ := featgen.CountsUnderFailure(func(sk *featgen.Sink) func(int) (int, error) {
+				w := gff.NewWriter(sk, k.SeqW, false)
+				return func(i int) (int, error) { return w.Write(k.Gff[i].Make()) }
+			}, len(k.Gff), limit)
+			if msg != "" && !k.Header {
+				fail("byte-count/failing-sink", "%s", msg)
+				break
 			}
 		}
 	}
